@@ -100,9 +100,9 @@ example :
     let bytes := feedPieces toyCfg d0 (good.map fun b => [b])
     whole.2.2 = none ∧ whole.1.out = [7, 9] ∧ three.1.out = [7, 9] ∧ bytes.1.out = [7, 9] ∧
     whole.2.1 = [.chunkBegin 13 IHDR, .header 1 1 8 0 false, .chunkComplete 0 IHDR, .chunkBegin 3 IDAT,
-                 .imageData, .chunkComplete 0 IDAT, .imageDataFlushed, .chunkBegin 0 IEND, .imageEnd] ∧
+                 .imageData, .chunkComplete 0 IDAT, .imageDataFlushed, .chunkBegin 0 IEND, .partialChunk IEND, .imageEnd] ∧
     three.2.1.filter Ev.keep = whole.2.1.filter Ev.keep ∧ bytes.2.1.filter Ev.keep = whole.2.1.filter Ev.keep ∧
-    bytes.2.1.length = 11 ∧
+    bytes.2.1.length = 12 ∧
     whole.1.info = some { width := 1, height := 1, depth := 8, color := 0, interlaced := false } ∧
     bytes.1.info = whole.1.info ∧ whole.1.state = none := by
   decide +kernel
